@@ -3,6 +3,10 @@
 package mailbox
 
 import (
+	"context"
+	"net"
+	"time"
+
 	"github.com/btcsuite/btcd/btcec/v2"
 	"github.com/lightningnetwork/lnd/keychain"
 )
@@ -173,4 +177,62 @@ func VH_C03_Retry() {
 	vRunHandshake(hs)
 	vReach("retry-match")
 	vAssert(hs.cli.err == nil && hs.srv.err == nil, "handshake with equal passphrases failed after rejected attempts")
+}
+
+// vProxyEnd makes one end of the in-memory duplex connection a ProxyConn, so
+// that the real NoiseGrpcConn.ServerHandshake / ClientHandshake run over it.
+type vProxyEnd struct{ *vEnd }
+
+func (vProxyEnd) Close() error                       { return nil }
+func (vProxyEnd) LocalAddr() net.Addr                { return nil }
+func (vProxyEnd) RemoteAddr() net.Addr               { return nil }
+func (vProxyEnd) SetDeadline(t time.Time) error      { return nil }
+func (vProxyEnd) SetReadDeadline(t time.Time) error  { return nil }
+func (vProxyEnd) SetWriteDeadline(t time.Time) error { return nil }
+func (vProxyEnd) ReceiveControlMsg(ControlMsg) error { return nil }
+func (vProxyEnd) SendControlMsg(ControlMsg) error    { return nil }
+func (vProxyEnd) SetRecvTimeout(time.Duration)       {}
+func (vProxyEnd) SetSendTimeout(time.Duration)       {}
+
+// VH_C03_RetryConn: the listener's long-lived credentials object
+// (NoiseGrpcConn, one per session, re-used for every incoming connection)
+// sees a client with a wrong passphrase twice and then the right client.
+// Both wrong attempts are rejected before the responder writes a byte; the
+// right one completes - whatever the object keeps between handshakes must not
+// wear the check out, nor lock the legitimate client out.
+func VH_C03_RetryConn() {
+	pwC, pwS := vBytes("pw_c", 14), vBytes("pw_s", 14)
+	vAssume(!vBytesEq(pwC, pwS))
+	auth := vBytes("auth", 7)
+	sk := vPrivKey("srv_static")
+	srvNoise := NewNoiseGrpcConn(NewConnData(&keychain.PrivKeyECDH{PrivKey: sk}, nil, pwS, auth, nil, nil))
+	attempt := func(pw []byte) (error, error, int) {
+		c2s, s2c := newHalf(), newHalf()
+		ck := vPrivKey("cli_static")
+		cliNoise := NewNoiseGrpcConn(NewConnData(&keychain.PrivKeyECDH{PrivKey: ck}, nil, pw, nil, nil, nil))
+		done := make(chan error, 1)
+		go func() {
+			_, _, err := srvNoise.ServerHandshake(vProxyEnd{&vEnd{r: c2s, w: s2c}})
+			if err != nil {
+				close(s2c.closed)
+			}
+			done <- err
+		}()
+		_, _, cerr := cliNoise.ClientHandshake(context.Background(), "", vProxyEnd{&vEnd{r: s2c, w: c2s}})
+		if cerr != nil {
+			close(c2s.closed)
+		}
+		return cerr, <-done, s2c.written
+	}
+	for i := 0; i < vParam("attempts", 2); i++ {
+		cerr, serr, wrote := attempt(pwC)
+		vReach("retryconn-mismatch")
+		vAssert(serr != nil && wrote == 0, "the listener answered a client that does not know the passphrase (not on the first attempt)")
+		vAssert(cerr != nil, "a client with a different passphrase completed the handshake")
+	}
+	pw := make([]byte, 14)
+	copy(pw, pwS)
+	cerr, serr, _ := attempt(pw)
+	vReach("retryconn-match")
+	vAssert(cerr == nil && serr == nil, "the right client is rejected after wrong attempts on the same listener object")
 }
